@@ -1,6 +1,7 @@
 package main
 
 import (
+	"google.golang.org/protobuf/types/known/anypb"
 	"context"
 	"fmt"
 	"math/rand/v2"
@@ -267,9 +268,144 @@ func viewOf(e *Exec) c20View {
 		Kind: o.Kind, Code: o.Code, Status: o.Status, NResp: len(o.Msgs), Malformed: o.Malformed, CT: o.CT}
 }
 
+// ---- same content under two file paths ---------------------------------------------
+
+// revisedContent rebuilds content.proto with one more message (Sticker) under the given file path. Under the original path
+// the file shares path and package with the generated file linked into the binary; under any other path it does not. The
+// content is the same, so the behaviour must be.
+func revisedContent(path string) (protoreflect.ServiceDescriptor, protoreflect.MessageType, error) {
+	gfd, err := protoregistry.GlobalFiles.FindFileByPath("vanguard/test/v1/content.proto")
+	if err != nil {
+		return nil, nil, err
+	}
+	fdp := protodesc.ToFileDescriptorProto(gfd)
+	fdp.Name = proto.String(path)
+	fdp.MessageType = append(fdp.MessageType, &descriptorpb.DescriptorProto{Name: proto.String("Sticker"), Field: []*descriptorpb.FieldDescriptorProto{{
+		Name: proto.String("label"), JsonName: proto.String("label"), Number: proto.Int32(1),
+		Label: descriptorpb.FieldDescriptorProto_LABEL_OPTIONAL.Enum(), Type: descriptorpb.FieldDescriptorProto_TYPE_STRING.Enum()}}})
+	fd, err := protodesc.NewFile(fdp, protoregistry.GlobalFiles)
+	if err != nil {
+		return nil, nil, err
+	}
+	return fd.Services().ByName("ContentService"), dynamicpb.NewMessageType(fd.Messages().ByName("Sticker")), nil
+}
+
+var (
+	c20PathMu sync.Mutex
+	c20PathTc = map[string]*vanguard.Transcoder{}
+)
+
+func c20PathTranscoder(path string, cfg *SvcConfig) (*vanguard.Transcoder, protoreflect.MessageType, error) {
+	svc, sticker, err := revisedContent(path)
+	if err != nil {
+		return nil, nil, err
+	}
+	extraTypes.Store(string(sticker.Descriptor().FullName()), sticker)
+	key := path + "|" + cfg.Key()
+	c20PathMu.Lock()
+	defer c20PathMu.Unlock()
+	if t := c20PathTc[key]; t != nil {
+		return t, sticker, nil
+	}
+	t, err := vanguard.NewTranscoder([]*vanguard.Service{vanguard.NewServiceWithSchema(svc, dispatcher, svcOptions(cfg)...)})
+	if err != nil {
+		return nil, nil, err
+	}
+	c20PathTc[key] = t
+	return t, sticker, nil
+}
+
+func c20SamePathLeg(c *Ctx, i int, r *rand.Rand) {
+	cfg := genConfig(r)
+	cfg.KnowZZ = false
+	cfg.Comps = nil
+	if len(cfg.Protocols) == 1 && cfg.Protocols[0] == "rest" {
+		cfg.Protocols = []string{"connect"}
+	}
+	cfg.Codecs = []string{pick(r, []string{"proto", "json"})}
+	ta, sticker, err := c20PathTranscoder("vanguard/test/v1/content.proto", cfg)
+	if err != nil {
+		c.Violate(i, "schema-variant-refused/same-path", err.Error())
+		return
+	}
+	tb, _, err := c20PathTranscoder("revised/vanguard/test/v1/content.proto", cfg)
+	if err != nil {
+		c.Violate(i, "schema-variant-refused/other-path", err.Error())
+		return
+	}
+	var m *MethodInfo
+	for _, x := range schemaMethods("content") {
+		if x.Name == "Index" {
+			m = x
+		}
+	}
+	if m == nil {
+		return
+	}
+	// the response: an HttpBody whose extensions carry a message that exists only in the revised file
+	st := sticker.New()
+	st.Set(st.Descriptor().Fields().ByName("label"), protoreflect.ValueOfString(pick(r, stringPool)))
+	sb, _ := proto.Marshal(st.Interface())
+	resp := newMsg(m.Out())
+	rm := resp.ProtoReflect()
+	fs := rm.Descriptor().Fields()
+	rm.Set(fs.ByName("content_type"), protoreflect.ValueOfString("text/html"))
+	rm.Set(fs.ByName("data"), protoreflect.ValueOfBytes([]byte("<html/>")))
+	rm.Mutable(fs.ByName("extensions")).List().Append(protoreflect.ValueOfMessage((&anypb.Any{TypeUrl: "type.googleapis.com/vanguard.test.v1.Sticker", Value: sb}).ProtoReflect()))
+	creq := &ClientReq{Form: pick(r, []ClientForm{FConnectUnary, FGRPC, FGRPCWeb}), M: m, Codec: pick(r, []string{"json", "proto"}), HTTP2: true, FrameComp: []bool{false},
+		Msgs: []protoMsg{genMessage(r, m.In(), genOpts{noMaps: true, density: 2, simpleStr: true})}}
+	script := &BackendScript{Msgs: []protoMsg{resp}, FrameComp: []bool{false}}
+	built, err := creq.Build(r)
+	if err != nil {
+		return
+	}
+	creq.UseRawBody, creq.RawBody = true, built.Raw
+	scfg := *cfg
+	scfg.Schema = "content"
+	run := func(t *vanguard.Transcoder) (*Exec, error) {
+		cr, sc := *creq, *script
+		return runRPC(&scfg, &cr, &sc, r, &execOpts{Transcoder: t})
+	}
+	ea, err := run(ta)
+	if err != nil {
+		return
+	}
+	eb, err := run(tb)
+	if err != nil {
+		return
+	}
+	c.Eval()
+	c.Eval()
+	c.Count("pairs-compared")
+	c.Count("variant:same-content-two-paths")
+	if creq.Codec != ea.Backend.Obs.Codec {
+		c.Count("same-path-pairs-re-encoded")
+		c.Nontrivial(fmt.Sprintf("paths|%s|%s>%s|%v", creq.Form, creq.Codec, ea.Backend.Obs.Codec, cfg.Protocols))
+	}
+	detail := func() string {
+		return fmt.Sprintf("the same revised content.proto (one more message, carried in HttpBody.extensions) registered under two file paths\n--- under the generated file's own path:\n%s--- under another path:\n%s", ea.Describe(), eb.Describe())
+	}
+	if (ea.Panic != nil) != (eb.Panic != nil) {
+		c.Violate(i, "panic-only-with-one-schema-source/same-content-two-paths", detail())
+		return
+	}
+	va, vb := viewOf(ea), viewOf(eb)
+	if !reflect.DeepEqual(va, vb) {
+		c.Violate(i, "behaviour-differs/same-content-two-paths/"+c20Field(va, vb), fmt.Sprintf("same path: %+v\nother path: %+v\n%s", va, vb, detail()))
+		return
+	}
+	if !msgsEqual(ea.Out.Msgs, eb.Out.Msgs) {
+		c.Violate(i, "client-messages-differ/same-content-two-paths", detail())
+	}
+}
+
 func runC20(c *Ctx, i int, r *rand.Rand) {
 	if i%8 == 7 {
 		c20GRPCLeg(c, i, r)
+		return
+	}
+	if i%16 == 3 {
+		c20SamePathLeg(c, i, r)
 		return
 	}
 	variant := c20Variants[i%len(c20Variants)]
